@@ -63,6 +63,12 @@ ASSUMPTIONS = [
     "zero extents, 0-way tensors, maxiters = 0 and (pdnr/pqnr) maxinneriters = 0 are rejected by the model and "
     "not generated as valid inputs; a 1-way dense tensor and a sparse tensor without stored entry are rejections "
     "of the implementation (recorded D3/D4) and of the model",
+    "C11_likelihood_monotone_* / C11_likelihood_not_worse assume the safeguards of the code inactive on the run; "
+    "the harness records for every implementation run which safeguards were active (epsDivZero clamp met a "
+    "denominator below eps or not positive; inadmissible-zero bump; zero-row patch; a zero column norm in "
+    "ktensor.normalize) and checks on the runs where none was that the recomputed likelihood does not "
+    "decrease from the guess to iteration 1 and from iteration k-1 to k; 'not less likely than the start' is "
+    "checked on EVERY run regardless",
     "log is a parameter of the theorems: C11_objective_* say which sums the reported number is made of; that "
     "np.log is the natural logarithm is exercised only by the independent numpy recomputation",
 ]
@@ -293,14 +299,68 @@ def recording(alg, rec, calls=None):
         C.tt_linesearch_prowsubprob = orig
 
 
-def run_impl(case, maxiters, printitn=0, record=True):
+@contextlib.contextmanager
+def safeguard_watch(flags):
+    """Record whether a safeguard of cp_apr was ACTIVE during the call (the hypotheses of
+    C11_likelihood_monotone_* / C11_likelihood_not_worse are that none is): `clamp` -- some
+    denominator `v` handed to np.maximum(v, epsDivZero) is below epsDivZero or not positive
+    (calculate_phi, calc_partials, calc_grad); `zero_norm` -- ktensor.normalize met a column of norm
+    zero.  (The inadmissible-zero bump and the zero-row patch are read off nViolations / the guess.)"""
+    o_phi, o_par, o_grad, o_norm = C.calculate_phi, C.calc_partials, C.calc_grad, ttb.ktensor.normalize
+
+    def note_v(v, eps):
+        v = np.asarray(v, dtype=float)
+        if v.size and (np.any(v < eps) or np.any(~(v > 0))):
+            flags["clamp"] = True
+
+    def w_phi(Data, Model, rank, factorIndex, Pi, epsilon):
+        with np.errstate(all="ignore"):
+            A = Model.factor_matrices[factorIndex]
+            if isinstance(Data, ttb.sptensor):
+                note_v(np.sum(A[Data.subs[:, factorIndex], :] * Pi, axis=1), epsilon)
+            else:
+                note_v(A.dot(Pi.transpose()), epsilon)
+        return o_phi(Data, Model, rank, factorIndex, Pi, epsilon)
+
+    def w_par(isSparse, Pi, epsilon, data_row, model_row):
+        with np.errstate(all="ignore"):
+            note_v(np.asarray(model_row).dot(Pi.transpose()), epsilon)
+        return o_par(isSparse, Pi, epsilon, data_row, model_row)
+
+    def w_grad(isSparse, Pi, eps_div_zero, data_row, model_row):
+        with np.errstate(all="ignore"):
+            note_v(np.asarray(model_row).dot(Pi.transpose()), eps_div_zero)
+        return o_grad(isSparse, Pi, eps_div_zero, data_row, model_row)
+
+    def w_norm(self, weight_factor=None, sort=False, normtype=2, mode=None):
+        fms = [self.factor_matrices[mode]] if mode is not None and mode in range(self.ndims) \
+            else list(self.factor_matrices)
+        for f in fms:
+            if np.any(np.linalg.norm(np.asarray(f, dtype=float), ord=normtype, axis=0) == 0):
+                flags["zero_norm"] = True
+        return o_norm(self, weight_factor=weight_factor, sort=sort, normtype=normtype, mode=mode)
+
+    C.calculate_phi, C.calc_partials, C.calc_grad, ttb.ktensor.normalize = w_phi, w_par, w_grad, w_norm
+    try:
+        yield
+    finally:
+        C.calculate_phi, C.calc_partials, C.calc_grad, ttb.ktensor.normalize = o_phi, o_par, o_grad, o_norm
+
+
+def run_impl(case, maxiters, printitn=0, record=True, flags=None):
     data = mk_data(case["data"])
     guess = mk_kt(case["init"])
     before = (snapshot(data), snapshot(guess))
     rec, calls = [], []
-    with (recording(case["alg"], rec, calls) if record else contextlib.nullcontext()), quiet():
+    if flags is not None and case["alg"] != "mu" and \
+            any(np.any(np.sum(np.asarray(f), axis=1) == 0) for f in guess.factor_matrices):
+        flags["zero_row"] = True
+    with (recording(case["alg"], rec, calls) if record else contextlib.nullcontext()), \
+            (safeguard_watch(flags) if flags is not None else contextlib.nullcontext()), quiet():
         res = call(lambda: ttb.cp_apr(data, case["rank"], algorithm=case["alg"], init=guess, maxiters=maxiters,
                                       **kwargs_of(case, printitn)))
+    if flags is not None and "ok" in res and np.any(np.asarray(res["ok"][2].get("nViolations", [0])) > 0):
+        flags["bump"] = True
     untouched = (snapshot(data) == before[0], snapshot(guess) == before[1])
     if "ok" in res:
         M, init_back, out = res["ok"]
@@ -538,7 +598,9 @@ class Runs(Family):
     name = "runs"
     theorems = ("C11_nonneg_invariant", "C11_nonneg_returned", "C11_shape_rank", "C11_kkt_nonneg",
                 "C11_kkt_length", "C11_iters_le", "C11_objective_dense", "C11_objective_sparse",
-                "C11_returned_model_denote", "C11_likelihood_not_worse_partial")
+                "C11_returned_model_denote", "C11_likelihood_not_worse_partial", "C11_likelihood_monotone_mu",
+                "C11_likelihood_monotone_pdnr", "C11_likelihood_monotone_pqnr", "C11_likelihood_not_worse",
+                "C11_objective_eq_negLL")
 
     def gen(self, rng, tier):
         n = 240 if tier == "quick" else 3000
@@ -556,7 +618,10 @@ class Runs(Family):
         for ci, c in enumerate(cases):
             runs = []
             for k in range(1, c["kmax"] + 1):
-                res, rec, untouched, calls = run_impl(c, k)
+                flags = {}
+                res, rec, untouched, calls = run_impl(c, k, flags=flags)
+                if "ok" in res:
+                    res["ok"]["safeguards"] = sorted(flags)
                 # the same request with the progress lines on (captured): printitn 1 (default), 2, 3
                 printed = [(p,) + run_impl(c, k, p, record=False)[0:3:2] for p in PRINTITNS]
                 runs.append((k, res, rec, untouched, calls, printed))
@@ -653,6 +718,23 @@ class Runs(Family):
                 if pending is None:
                     firm = [cl for cl in calls if cl["margin"] >= TIE]
                     pending = (v, firm[:80], tags, "rounding-tie" if tie else "amplified-rounding")
+            # likelihood never decreases from one outer iteration to the next (and from the guess to the
+            # first) on runs whose safeguards were all inactive: C11_likelihood_monotone_mu / _pdnr / _pqnr
+            if not r["safeguards"]:
+                X = data_dense(c["data"])
+                ll_k = loglik_np(X, np.array(r["weights"]), [np.array(f).reshape(len(f), -1) for f in r["factors"]])
+                if prev is None:
+                    g = c["init"]
+                    ll_prev = loglik_np(X, np.array(ub(g["weights"])),
+                                        [np.array(ub(f)).reshape(len(f), -1) for f in g["factors"]])
+                    frm = "the starting guess"
+                else:
+                    ll_prev = loglik_np(X, np.array(prev["weights"]),
+                                        [np.array(f).reshape(len(f), -1) for f in prev["factors"]])
+                    frm = f"the state after {len(prev['kkt'])} outer iterations"
+                if math.isfinite(ll_prev) and not (ll_k >= ll_prev - REL * max(1.0, abs(ll_prev))):
+                    return Verdict("violation", f"maxiters={k}: safeguards inactive, yet the likelihood fell from "
+                                   f"{ll_prev!r} ({frm}) to {ll_k!r}", r, None, None, tags + ["safeguards-inactive"])
             # runs from one start are prefixes of one another until one of them stops early
             if prev is not None and len(prev["kkt"]) == k - 1:
                 if prev["kkt"] != r["kkt"][:k - 1] or prev["nInner"] != r["nInner"][:k - 1]:
@@ -672,6 +754,7 @@ class Runs(Family):
             tags.append("ls-backtracked")
         if any(v > 0 for v in last_ok["nViol"]):
             tags.append("mu-bump")
+        tags += [f"safeguard:{f}" for f in last_ok["safeguards"]] or ["safeguards-inactive"]
         if pending is not None:
             return (pending[0], pending[1], tags, pending[3])
         return Verdict("ok", "", {"iters": len(last_ok["kkt"]), "obj": last_ok["obj"], "nInner": last_ok["nInner"]},
